@@ -516,3 +516,20 @@ where
         }
     }
 }
+
+#[cfg(feature = "verif")]
+impl<T: Value, N: Unsigned, U: UpdateMap<T>> List<T, N, U> {
+    /// Backing tree, its cached length and depth (pending updates not included).
+    pub fn verif_backing(&self) -> (&Arc<Tree<T>>, usize, usize) {
+        (
+            &self.interface.backing.tree,
+            self.interface.backing.length.as_usize(),
+            self.interface.backing.depth,
+        )
+    }
+
+    /// The pending update map.
+    pub fn verif_updates(&self) -> &U {
+        &self.interface.updates
+    }
+}
